@@ -122,6 +122,58 @@ def obligations(ctx):
             oblig.guarded(r, E, q, evs, phi, "remove_file reachable with id >= keep_from_log_id")
     out += archive_write(ctx)
     out += archive_results(ctx)
+    out += archive_entries(ctx)
+    return out
+
+
+def archive_entries(ctx):
+    """every record of the log that parses ends up in the archive"""
+    from .flushspec import Builder
+    b = Builder(ctx, "wal-wal_archive-{impl#0}-from_wal_file.", "WalArchive::from_wal_file", {})
+    E, q = b.E, ctx.q
+    r = b.mk("B-6", "WalArchive::from_wal_file walks the lines of the opened log file themselves (BufRead::lines, numbered with enumerate: no "
+                    "line is dropped, skipped or cut off beforehand - WAL recovery reads the same lines) and adds every line that parses "
+                    "as a WAL entry to the archive's entries")
+    out = [b.results["B-6"]]
+    if not r:
+        return out
+    parses = [e for e in E.events if re.search(r"serde_json::from_str", e.func)]
+    pushes = [e for e in E.events if re.search(r"Vec::<.*WalEntry>::push$", e.func)]
+    iters = [e for e in E.events if re.search(r"IntoIterator>::into_iter$", e.func) and e.span and e.span[0].endswith("wal_archive.rs")]
+    if not oblig.need_anchor(r, parses, "serde_json::from_str::<WalEntry>") or not oblig.need_anchor(r, pushes, "entries.push") \
+            or not oblig.need_anchor(r, iters, "the loop over the log's lines"):
+        return out
+    r.nontrivial = True
+    # (1) the sequence walked is the file's own line iterator
+    loop_it = min(iters, key=lambda e: e.span[1])
+    chain = E.trace(loop_it.args[0], loop_it.env, depth=16) | {sym.describe(loop_it.args[0])} if loop_it.args else set()
+    removal = [e for e in E.events if re.search(r"::(pop|truncate|remove|drain|skip|take|step_by|filter|rev|split_last|split_off|dedup)(::<.*>)?$", e.func)
+               and e.span and e.span[0].endswith("wal_archive.rs") and e.span[1] <= loop_it.span[1]]
+    span = f"{loop_it.span[0]}:{loop_it.span[1]}"
+    if not any("BufRead::lines" in x for x in chain):
+        if removal:
+            r.status = "violated"
+            r.witness = {"what": f"the lines that are archived are not the file's own line iterator: a {removal[0].short} is applied to them "
+                                 "first, so a record WAL recovery would replay (e.g. a complete last record without a trailing newline) is missing "
+                                 "from the archive while archive_log still returns Ok and the log is deleted",
+                         "span": f"{removal[0].span[0]}:{removal[0].span[1]}", "call": removal[0].func[:80], "path": [], "model": {}}
+        else:
+            r.status = "inconclusive"
+            r.notes.append(f"the loop does not walk BufRead::lines directly (derives from {sorted(x for x in chain if '::' in x)[:5]})")
+        return out
+    if not any("File::open" in x for x in chain):
+        r.status = "inconclusive"
+        r.notes.append("the line iterator is not over the opened log file")
+        return out
+    # (2) a line that parses is added
+    for p_ in parses:
+        mine = [x for x in pushes if x.layer == p_.layer and len(x.args) > 1 and sym.describe(x.args[1]).startswith(p_.site)]
+        pushed = z3.Or([x.reach for x in mine]) if mine else z3.BoolVal(False)
+        res, model = q.check(p_.reach, z3.BitVec(f"disc({p_.site})", 64) == 0, z3.Not(pushed), domain=E.domain)
+        r.queries += 1
+        if res == z3.sat:
+            oblig.violated(r, E, q, p_, model, "a line that parses as a WAL entry is not added to the archive's entries")
+            return out
     return out
 
 
